@@ -73,6 +73,12 @@ func CloneFunc(fn func(interface{}) (interface{}, error)) Cloner {
 		if src.Type() != dest.Type() {
 			return fmt.Errorf("incompatible types: %v != %v", src.Type(), dest.Type())
 		}
+		if pmIn, ok := in.(proto.Message); ok {
+			// the same Go type can hold different message types (e.g. dynamic messages)
+			if pmOut, ok := out.(proto.Message); ok && proto.MessageName(pmIn) != proto.MessageName(pmOut) {
+				return fmt.Errorf("incompatible message types: %s != %s", proto.MessageName(pmIn), proto.MessageName(pmOut))
+			}
+		}
 		if !dest.CanSet() {
 			return fmt.Errorf("unable to set destination: %v", reflect.ValueOf(out).Type())
 		}
